@@ -115,6 +115,7 @@ type State struct {
 	ghost   map[string]Value
 	chooseSeq []int
 	trail   []int32 // every decision taken since the initial state
+	chosen  map[string]int // named Choose decisions taken on this path
 	merged  bool    // passed a merge point (cannot be shipped to another worker)
 	abst    *absRec // abstractions (uninterpreted summaries) introduced on this path
 }
@@ -169,6 +170,12 @@ func (s *State) clone() *State {
 	n.edges = make(map[string]bool, len(s.edges))
 	for k := range s.edges {
 		n.edges[k] = true
+	}
+	if s.chosen != nil {
+		n.chosen = make(map[string]int, len(s.chosen))
+		for k, v := range s.chosen {
+			n.chosen[k] = v
+		}
 	}
 	n.locks = make(map[string]int, len(s.locks))
 	for k, v := range s.locks {
